@@ -193,7 +193,7 @@ Definition edit (bump_new : bool) (e : engine) (m : name) (s : source) : engine 
     if source_eqb old s then e
     else mkEngine (set_nth (srcs e) m s) (S (revn e)) (memt e)
   | None =>
-    mkEngine (set_nth (srcs e) m s) (if bump_new then S (revn e) else rev e) (memt e)
+    mkEngine (set_nth (srcs e) m s) (if bump_new then S (revn e) else revn e) (memt e)
   end.
 
 Definition inc_eval (e : engine) (m : name) : engine * result * list name :=
